@@ -4,10 +4,15 @@
     and all tip-state assignments.  Vocabulary: Spec/Parsimony.v ([cost] of a labelling =
     number of branches whose ends differ, a tip costing 0 against any state of its set;
     [is_mincost] = least cost over all labellings; [optimal]; [opt_state]).
-    Proofs in Proofs/Parsimony{Vec,Hartigan,Reroot,Main}.v. *)
+    Nodes are addressed by their path from the root (slot indexes; Model.Reroot.paths lists
+    them in the order of Tree.Nodes()); [vec_at t vt p] is the count vector the model holds at
+    that node ([nth y v 0 = 1]: state y is reported there).
+    Proofs in Proofs/Parsimony{Vec,Hartigan,Reroot,Main,Ctx,Down,Final,Acctran,Tips,Unamb,Deltran,Inst}.v. *)
 From Coq Require Import String ZArith QArith Bool Arith List.
 From GT Require Import Base.UTree Spec.Obs Spec.Parsimony Model.Reroot Model.Parsimony
-     Proofs.ParsimonyVec Proofs.ParsimonyHartigan Proofs.ParsimonyReroot Proofs.ParsimonyMain.
+     Proofs.ParsimonyVec Proofs.ParsimonyHartigan Proofs.ParsimonyReroot Proofs.ParsimonyMain
+     Proofs.ParsimonyCtx Proofs.ParsimonyDown Proofs.ParsimonyFinal Proofs.ParsimonyAcctran
+     Proofs.ParsimonyTips Proofs.ParsimonyUnamb Proofs.ParsimonyDeltran Proofs.ParsimonyInst.
 Import ListNotations.
 Local Close Scope Q_scope.
 Local Open Scope string_scope.
@@ -72,3 +77,264 @@ Theorem C12_acr_reroot_defined :
     parsimony_acr t m a = Ok r -> exists r', parsimony_acr t' m a = Ok r'.
 Proof. exact acr_reroot_defined. Qed.
 Print Assumptions C12_acr_reroot_defined.
+
+(** * the state sets, for any tip vectors that are indicators of non-empty sets
+      ([skip] = whether ACCTRAN skips tip children: false in acr, true in asr) *)
+
+(** DOWNPASS reports at every inner node exactly the states the node takes in the
+    most-parsimonious labellings of the whole tree *)
+Theorem C12_downpass_exact :
+  forall tv ts k T,
+    wf T = true -> 2 <= degree T ->
+    (forall n, In n (leaves T) -> tip_ok tv ts k n) ->
+    forall skip q x v,
+      node_at T q = Some x -> is_leaf x = false ->
+      vec_at T (fst (parsimony skip tv k Downpass T)) q = Some v ->
+      forall y, nth y v 0 = 1 <-> opt_state_at ts T q y.
+Proof. exact downpass_exact. Qed.
+Print Assumptions C12_downpass_exact.
+
+(** DELTRAN and ACCTRAN: every state reported at an inner node occurs there in at least one
+    most-parsimonious labelling *)
+Theorem C12_deltran_sound :
+  forall tv ts k T,
+    wf T = true -> 2 <= degree T ->
+    (forall n, In n (leaves T) -> tip_ok tv ts k n) ->
+    forall skip q x v,
+      node_at T q = Some x -> is_leaf x = false ->
+      vec_at T (fst (parsimony skip tv k Deltran T)) q = Some v ->
+      forall y, nth y v 0 = 1 -> opt_state_at ts T q y.
+Proof. exact deltran_sound. Qed.
+Print Assumptions C12_deltran_sound.
+
+Theorem C12_acctran_sound :
+  forall tv ts k T,
+    wf T = true -> 2 <= degree T ->
+    (forall n, In n (leaves T) -> tip_ok tv ts k n) ->
+    forall skip q x v,
+      node_at T q = Some x -> is_leaf x = false ->
+      vec_at T (fst (parsimony skip tv k Acctran T)) q = Some v ->
+      forall y, nth y v 0 = 1 -> opt_state_at ts T q y.
+Proof. exact acctran_sound. Qed.
+Print Assumptions C12_acctran_sound.
+
+(** tip states are never altered: always for DOWNPASS / DELTRAN / no second pass; for ACCTRAN
+    when tip children are skipped, or when no tip vector can be narrowed *)
+Theorem C12_tips_unaltered :
+  forall tv k ts skip a T q x v,
+    wf T = true -> 2 <= degree T ->
+    (forall n, In n (leaves T) -> tip_ok tv ts k n) ->
+    (a = Acctran ->
+     skip = true \/
+     (forall n, In n (leaves T) -> forall p, good k p -> refine p (tv n) = tv n)) ->
+    node_at T q = Some x -> is_leaf x = true ->
+    vec_at T (fst (parsimony skip tv k a T)) q = Some v -> v = tv (uname x).
+Proof. exact tips_unaltered. Qed.
+Print Assumptions C12_tips_unaltered.
+
+(** the hypothesis of the ACCTRAN case cannot be dropped: rewriting tip children (as the
+    sequence variant did before the fix, and as acr/parsimony.go still does) narrows an
+    ambiguous tip.  Witness: star tree (a,b,c), a in {A,G}, b = c = A: a becomes A. *)
+Theorem C12_acctran_rewriting_tips_keeps_ambiguous_tip_refuted :
+  exists t tv q x v, wf t = true /\ 2 <= degree t /\
+    node_at t q = Some x /\ is_leaf x = true /\
+    vec_at t (fst (parsimony false tv 6 Acctran t)) q = Some v /\ v <> tv (uname x).
+Proof. exact acctran_rewriting_tips_keeps_ambiguous_tip_refuted. Qed.
+Print Assumptions C12_acctran_rewriting_tips_keeps_ambiguous_tip_refuted.
+
+(** an output that is unambiguous at every node is itself most parsimonious
+    ([lab_of]: the labelling made of the single state of every node) *)
+Theorem C12_acctran_unambiguous :
+  forall tv ts k T,
+    wf T = true -> 2 <= degree T ->
+    (forall n, In n (leaves T) -> tip_ok tv ts k n) ->
+    forall skip,
+      vall single (fst (parsimony skip tv k Acctran T)) ->
+      optimal ts T (lab_of T (fst (parsimony skip tv k Acctran T))).
+Proof. exact acctran_unambiguous. Qed.
+Print Assumptions C12_acctran_unambiguous.
+
+Theorem C12_downpass_unambiguous :
+  forall tv ts k T,
+    wf T = true -> 2 <= degree T ->
+    (forall n, In n (leaves T) -> tip_ok tv ts k n) ->
+    forall skip,
+      vall single (fst (parsimony skip tv k Downpass T)) ->
+      optimal ts T (lab_of T (fst (parsimony skip tv k Downpass T))).
+Proof. exact downpass_unambiguous. Qed.
+Print Assumptions C12_downpass_unambiguous.
+
+Theorem C12_deltran_unambiguous :
+  forall tv ts k T,
+    wf T = true -> 2 <= degree T ->
+    (forall n, In n (leaves T) -> tip_ok tv ts k n) ->
+    forall skip,
+      vall single (fst (parsimony skip tv k Deltran T)) ->
+      optimal ts T (lab_of T (fst (parsimony skip tv k Deltran T))).
+Proof. exact deltran_unambiguous. Qed.
+Print Assumptions C12_deltran_unambiguous.
+
+(** * the same, on ParsimonyAcr itself (tips hold one state of the sorted alphabet) *)
+Theorem C12_acr_result :
+  forall m t,
+    wf t = true -> 2 <= degree t ->
+    (forall n, In n (leaves t) -> exists s, lookup n m = Some s) ->
+    forall a, exists r,
+      parsimony_acr t m a = Ok r /\
+      acr_vecs r = vflat (acr_vt m t a) /\ acr_steps r = up_steps (acr_tv m) (acr_k m) t.
+Proof. exact parsimony_acr_ok. Qed.
+Print Assumptions C12_acr_result.
+
+Theorem C12_acr_downpass_exact :
+  forall m t,
+    wf t = true -> 2 <= degree t ->
+    (forall n, In n (leaves t) -> exists s, lookup n m = Some s) ->
+    forall q x v,
+      node_at t q = Some x -> is_leaf x = false ->
+      vec_at t (acr_vt m t Downpass) q = Some v ->
+      forall y, nth y v 0 = 1 <-> opt_state_at (acr_ts m) t q y.
+Proof. exact acr_downpass_exact. Qed.
+Print Assumptions C12_acr_downpass_exact.
+
+Theorem C12_acr_deltran_sound :
+  forall m t,
+    wf t = true -> 2 <= degree t ->
+    (forall n, In n (leaves t) -> exists s, lookup n m = Some s) ->
+    forall q x v,
+      node_at t q = Some x -> is_leaf x = false ->
+      vec_at t (acr_vt m t Deltran) q = Some v ->
+      forall y, nth y v 0 = 1 -> opt_state_at (acr_ts m) t q y.
+Proof. exact acr_deltran_sound. Qed.
+Print Assumptions C12_acr_deltran_sound.
+
+Theorem C12_acr_acctran_sound :
+  forall m t,
+    wf t = true -> 2 <= degree t ->
+    (forall n, In n (leaves t) -> exists s, lookup n m = Some s) ->
+    forall q x v,
+      node_at t q = Some x -> is_leaf x = false ->
+      vec_at t (acr_vt m t Acctran) q = Some v ->
+      forall y, nth y v 0 = 1 -> opt_state_at (acr_ts m) t q y.
+Proof. exact acr_acctran_sound. Qed.
+Print Assumptions C12_acr_acctran_sound.
+
+(** character variant: tips are never altered, whatever the algorithm *)
+Theorem C12_acr_tips_unaltered :
+  forall m t,
+    wf t = true -> 2 <= degree t ->
+    (forall n, In n (leaves t) -> exists s, lookup n m = Some s) ->
+    forall a q x v,
+      node_at t q = Some x -> is_leaf x = true ->
+      vec_at t (acr_vt m t a) q = Some v -> v = acr_tv m (uname x).
+Proof. exact acr_tips_unaltered. Qed.
+Print Assumptions C12_acr_tips_unaltered.
+
+Theorem C12_acr_acctran_unambiguous :
+  forall m t,
+    wf t = true -> 2 <= degree t ->
+    (forall n, In n (leaves t) -> exists s, lookup n m = Some s) ->
+    vall single (acr_vt m t Acctran) -> optimal (acr_ts m) t (lab_of t (acr_vt m t Acctran)).
+Proof. exact acr_acctran_unambiguous. Qed.
+Print Assumptions C12_acr_acctran_unambiguous.
+
+Theorem C12_acr_downpass_unambiguous :
+  forall m t,
+    wf t = true -> 2 <= degree t ->
+    (forall n, In n (leaves t) -> exists s, lookup n m = Some s) ->
+    vall single (acr_vt m t Downpass) -> optimal (acr_ts m) t (lab_of t (acr_vt m t Downpass)).
+Proof. exact acr_downpass_unambiguous. Qed.
+Print Assumptions C12_acr_downpass_unambiguous.
+
+Theorem C12_acr_deltran_unambiguous :
+  forall m t,
+    wf t = true -> 2 <= degree t ->
+    (forall n, In n (leaves t) -> exists s, lookup n m = Some s) ->
+    vall single (acr_vt m t Deltran) -> optimal (acr_ts m) t (lab_of t (acr_vt m t Deltran)).
+Proof. exact acr_deltran_unambiguous. Qed.
+Print Assumptions C12_acr_deltran_unambiguous.
+
+(** * sequence variant: ParsimonyAsr is the per-site computation over the alphabet
+      A C G T - *, a tip holding the IUPAC set of its character *)
+Theorem C12_asr_sites :
+  forall t aln a r,
+    parsimony_asr t aln a = Ok r ->
+    asr_steps r = (map (fun j => snd (parsimony true (asr_tipvec aln j) 6 a t)) (seq 0 (aln_length aln)) ++ [0])%list /\
+    asr_vecs r = map (fun j => vflat (fst (parsimony true (asr_tipvec aln j) 6 a t))) (seq 0 (aln_length aln)).
+Proof. exact parsimony_asr_sites. Qed.
+Print Assumptions C12_asr_sites.
+
+(** the number of steps of a site is the minimum, ambiguity codes at tips meaning
+    "any of these states" *)
+Theorem C12_asr_site_steps_optimal :
+  forall aln t j,
+    wf t = true -> 2 <= degree t ->
+    (forall n, In n (leaves t) -> exists x, nth x (asr_tipvec aln j n) 0 = 1) ->
+    forall a, is_mincost (asr_ts aln j) t (snd (parsimony true (asr_tv aln j) 6 a t)).
+Proof. exact asr_site_steps_optimal. Qed.
+Print Assumptions C12_asr_site_steps_optimal.
+
+Theorem C12_asr_downpass_exact :
+  forall aln t j,
+    wf t = true -> 2 <= degree t ->
+    (forall n, In n (leaves t) -> exists x, nth x (asr_tipvec aln j n) 0 = 1) ->
+    forall q x v,
+      node_at t q = Some x -> is_leaf x = false ->
+      vec_at t (asr_vt aln t j Downpass) q = Some v ->
+      forall y, nth y v 0 = 1 <-> opt_state_at (asr_ts aln j) t q y.
+Proof. exact asr_downpass_exact. Qed.
+Print Assumptions C12_asr_downpass_exact.
+
+Theorem C12_asr_deltran_sound :
+  forall aln t j,
+    wf t = true -> 2 <= degree t ->
+    (forall n, In n (leaves t) -> exists x, nth x (asr_tipvec aln j n) 0 = 1) ->
+    forall q x v,
+      node_at t q = Some x -> is_leaf x = false ->
+      vec_at t (asr_vt aln t j Deltran) q = Some v ->
+      forall y, nth y v 0 = 1 -> opt_state_at (asr_ts aln j) t q y.
+Proof. exact asr_deltran_sound. Qed.
+Print Assumptions C12_asr_deltran_sound.
+
+Theorem C12_asr_acctran_sound :
+  forall aln t j,
+    wf t = true -> 2 <= degree t ->
+    (forall n, In n (leaves t) -> exists x, nth x (asr_tipvec aln j n) 0 = 1) ->
+    forall q x v,
+      node_at t q = Some x -> is_leaf x = false ->
+      vec_at t (asr_vt aln t j Acctran) q = Some v ->
+      forall y, nth y v 0 = 1 -> opt_state_at (asr_ts aln j) t q y.
+Proof. exact asr_acctran_sound. Qed.
+Print Assumptions C12_asr_acctran_sound.
+
+(** after the fix of asr.parsimonyACCTRAN the IUPAC set of a tip is kept by the three algorithms *)
+Theorem C12_asr_tips_unaltered :
+  forall aln t j,
+    wf t = true -> 2 <= degree t ->
+    (forall n, In n (leaves t) -> exists x, nth x (asr_tipvec aln j n) 0 = 1) ->
+    forall a q x v,
+      node_at t q = Some x -> is_leaf x = true ->
+      vec_at t (asr_vt aln t j a) q = Some v -> v = asr_tv aln j (uname x).
+Proof. exact asr_tips_unaltered. Qed.
+Print Assumptions C12_asr_tips_unaltered.
+
+(** * the hypotheses are satisfiable: the hand-worked tree of acr/acr_test.go
+      (t1,(t2,((t3,(t4,t5)),(t8,((t9,t10),((t12,t13),t15)))))) with states A/B: 4 steps *)
+Definition ex_tip (n : string) : utree := UNode n [] [None].
+Definition ex_in (l : list utree) : utree := UNode "" [] (None :: map (fun c => Some (e0, c)) l).
+Definition ex_tree : utree :=
+  UNode "" [] [Some (e0, ex_tip "t1");
+               Some (e0, ex_in [ex_tip "t2";
+                                ex_in [ex_in [ex_tip "t3"; ex_in [ex_tip "t4"; ex_tip "t5"]];
+                                       ex_in [ex_tip "t8";
+                                              ex_in [ex_in [ex_tip "t9"; ex_tip "t10"];
+                                                     ex_in [ex_in [ex_tip "t12"; ex_tip "t13"]; ex_tip "t15"]]]]])].
+Definition ex_states : list (string * string) :=
+  [("t1","A"); ("t2","A"); ("t3","B"); ("t4","B"); ("t5","A"); ("t8","B");
+   ("t9","B"); ("t10","A"); ("t12","A"); ("t13","A"); ("t15","A")].
+
+Example C12_example_hypotheses :
+  wf ex_tree = true /\ 2 <= degree ex_tree /\
+  forallb (fun n => match lookup n ex_states with Some _ => true | None => false end) (leaves ex_tree) = true /\
+  match parsimony_acr ex_tree ex_states Deltran with Ok r => acr_steps r = 4 | Err _ => False end.
+Proof. vm_compute. repeat split; auto. Qed.
+Print Assumptions C12_example_hypotheses.
